@@ -349,6 +349,20 @@ Fixpoint executed (sh : shadow) (ops : list rop) (tr : list robs) : list blk :=
   | _, _ => []
   end.
 
+(** C20_replay_skipped: nothing at or below the executed height is ever handed over again *)
+Fixpoint above_executed (sh : shadow) (ops : list rop) (tr : list robs) : Prop :=
+  match ops, tr with
+  | op :: ops', o :: tr' =>
+      Forall (fun b => sh_chain sh < fst b) (b_ev o) /\ above_executed (shadow_step sh op o) ops' tr'
+  | _, _ => True
+  end.
+Fixpoint above_executed_b (sh : shadow) (ops : list rop) (tr : list robs) : bool :=
+  match ops, tr with
+  | op :: ops', o :: tr' =>
+      forallb (fun b => sh_chain sh <? fst b) (b_ev o) && above_executed_b (shadow_step sh op o) ops' tr'
+  | _, _ => true
+  end.
+
 Definition all_events (tr : list robs) : list blk := flat_map b_ev tr.
 
 (** C20_same_content / replay: every event is a block of the canonical chain of the log *)
@@ -419,6 +433,7 @@ Definition raft_prop_b (init : N) (lg : rlog) (ops : list rop) (tr : list robs) 
   else if negb (is_prefix_b (executed (shadow_init init) ops tr) (canon_blocks init lg)) then 3
   else if negb (none_skipped_b init lg tr) then 4
   else if negb (tx_once_b tr) then 5
+  else if negb (above_executed_b (shadow_init init) ops tr) then 6
   else 0.
 
 (** ** Judge *)
@@ -502,7 +517,12 @@ Inductive sop :=
 | SReport (h : N)
 | SCrash.
 
-Record sobs := { so_ev : list blk; so_st : list N (* lastExec dead seqNo held *); so_r : N (* 0 ok, 2 not taken *) }.
+Record sobs := {
+  so_ev : list blk;
+  so_st : list N;     (* lastExec dead seqNo held *)
+  so_r : N;           (* 0 ok, 2 not taken *)
+  so_still : N        (* report: how many transactions of the reported block the pool still returns *)
+}.
 
 Definition s_propose (m : smem) (h : N) (txs : list N) : smem * list blk * N :=
   if s_dead m then (m, [], 2)
@@ -520,6 +540,8 @@ Definition find_block (h : N) (bs : list blk) : list N :=
 Definition init_ssys (init : N) : ssys :=
   {| sm := {| s_last := init; s_dead := false; s_stuck := false; s_seq := init; s_held := []; s_seen := [] |};
      s_chain := init; s_queue := []; s_blocks := [] |}.
+
+Definition count_held (xs held : list N) : N := N.of_nat (length (filter (fun x => mem_N x held) xs)).
 
 Definition sstep (d : Defects) (s : ssys) (op : sop) : ssys * list blk * N :=
   let m := sm s in
@@ -551,14 +573,18 @@ Definition sstep (d : Defects) (s : ssys) (op : sop) : ssys * list blk * N :=
           s_chain := s_chain s; s_queue := []; s_blocks := s_blocks s |}, [], 0)
   end.
 
-Definition sobs_of (s : ssys) (ev : list blk) (r : N) : sobs :=
+Definition sobs_of (s : ssys) (op : option sop) (ev : list blk) (r : N) : sobs :=
   let m := sm s in
-  {| so_ev := ev; so_st := [s_last m; if s_dead m then 1 else 0; s_seq m; N.of_nat (length (s_held m))]; so_r := r |}.
+  {| so_ev := ev; so_st := [s_last m; if s_dead m then 1 else 0; s_seq m; N.of_nat (length (s_held m))]; so_r := r;
+     so_still := match op with
+                 | Some (SReport h) => if r =? 0 then count_held (find_block h (s_blocks s)) (s_held m) else 0
+                 | _ => 0
+                 end |}.
 
 Fixpoint srun (d : Defects) (s : ssys) (ops : list sop) : list sobs :=
   match ops with
   | [] => []
-  | op :: t => let '(s', ev, r) := sstep d s op in sobs_of s' ev r :: srun d s' t
+  | op :: t => let '(s', ev, r) := sstep d s op in sobs_of s' (Some op) ev r :: srun d s' t
   end.
 
 (** solo trace predicates *)
@@ -586,33 +612,15 @@ Fixpoint solo_contiguous_b (sh : shadow) (ops : list sop) (tr : list sobs) : boo
   | _, _ => true
   end.
 
-(** a report of an executed block that the node took makes the pool forget the block's transactions:
-    [held] must drop by the number of the block's transactions still held.  Checked on the first
-    report of each height only (the driver reports every height at most once per incarnation). *)
-Definition held_of (o : sobs) : N := nth 3 (so_st o) 0.
-Fixpoint solo_commits (prev : N) (blocks : list blk) (sh : shadow) (ops : list sop) (tr : list sobs) : Prop :=
-  match ops, tr with
-  | op :: ops', o :: tr' =>
-      let blocks' := match op, sh_queue sh with SExec, b :: _ => b :: blocks | _, _ => blocks end in
-      match op with
-      | SReport h => so_r o = 0 -> find_block h blocks <> [] -> held_of o < prev
-      | _ => True
-      end /\ solo_commits (held_of o) blocks' (sshadow_step sh op o) ops' tr'
-  | _, _ => True
-  end.
-Fixpoint solo_commits_b (prev : N) (blocks : list blk) (sh : shadow) (ops : list sop) (tr : list sobs) : bool :=
-  match ops, tr with
-  | op :: ops', o :: tr' =>
-      let blocks' := match op, sh_queue sh with SExec, b :: _ => b :: blocks | _, _ => blocks end in
-      match op with
-      | SReport h => negb (so_r o =? 0) || match find_block h blocks with [] => true | _ => held_of o <? prev end
-      | _ => true
-      end && solo_commits_b (held_of o) blocks' (sshadow_step sh op o) ops' tr'
-  | _, _ => true
-  end.
+(** a report that the node took makes the pool forget the reported block's transactions *)
+Definition solo_commits (ops : list sop) (tr : list sobs) : Prop :=
+  Forall (fun o => so_still o = 0) tr.
+Definition solo_commits_b (ops : list sop) (tr : list sobs) : bool :=
+  forallb (fun o => so_still o =? 0) tr.
 
 Definition sobs_eqb (a b : sobs) : bool :=
-  list_eqb blk_eqb (so_ev a) (so_ev b) && list_eqb N.eqb (so_st a) (so_st b) && (so_r a =? so_r b).
+  list_eqb blk_eqb (so_ev a) (so_ev b) && list_eqb N.eqb (so_st a) (so_st b) && (so_r a =? so_r b)
+  && (so_still a =? so_still b).
 
 Definition solo_case := (Defects * N * list sop * list sobs)%type.
 Definition judge_solo (cs : solo_case) : verdict :=
@@ -622,10 +630,10 @@ Definition judge_solo (cs : solo_case) : verdict :=
   | o0 :: tr' =>
       if negb (solo_contiguous_b (shadow_init init) ops tr') then V_propfalse 1
       else if negb (tx_once_lb (flat_map so_ev tr')) then V_propfalse 5
-      else if negb (solo_commits_b (held_of o0) [] (shadow_init init) ops tr') then V_propfalse 6
+      else if negb (solo_commits_b ops tr') then V_propfalse 6
       else
         let try1 (dd : Defects) :=
-          first_diff sobs_eqb (sobs_of (init_ssys init) [] 0 :: srun dd (init_ssys init) ops) tr 0 in
+          first_diff sobs_eqb (sobs_of (init_ssys init) None [] 0 :: srun dd (init_ssys init) ops) tr 0 in
         match try1 d with
         | None => V_ok
         | Some i => if d_solo_commit10 d
